@@ -37,7 +37,18 @@ const smtPrelude = `(set-option :produce-models true)
 (assert (forall ((y Int)) (! (= (MUL 1 y) y) :pattern ((MUL 1 y)))))
 (assert (forall ((x Int) (y Int)) (! (=> (and (>= x 0) (>= y 0)) (>= (MUL x y) 0)) :pattern ((MUL x y)))))
 (assert (forall ((x Int) (y Int)) (! (=> (and (>= x 1) (>= y 0)) (>= (MUL x y) y)) :pattern ((MUL x y)))))
+(declare-fun DIVU (Int Int) Int)
+(declare-fun MODU (Int Int) Int)
+(assert (forall ((x Int) (y Int)) (! (=> (> y 0) (= (MODU (MUL x y) y) 0)) :pattern ((MODU (MUL x y) y)))))
+(assert (forall ((x Int) (y Int)) (! (=> (and (>= x 0) (> y 0)) (and (<= 0 (MODU x y)) (< (MODU x y) y))) :pattern ((MODU x y)))))
+(assert (forall ((x Int) (y Int)) (! (=> (and (>= x 0) (> y 0)) (and (<= 0 (DIVU x y)) (<= (DIVU x y) x) (<= (MUL (DIVU x y) y) x) (< x (+ (MUL (DIVU x y) y) y)))) :pattern ((DIVU x y)))))
+(assert (forall ((x Int) (d Int) (y Int)) (! (=> (and (> d 0) (>= x 0) (<= 0 y) (<= y d)) (<= (MUL (DIVU x d) y) x)) :pattern ((MUL (DIVU x d) y)))))
 `
+
+// optional axioms, enabled per contract by `attr axioms <name>...`
+var optionalAxioms = map[string]string{
+	"mulsucc": "(assert (forall ((x Int) (y Int)) (! (= (MUL (+ x 1) y) (+ (MUL x y) y)) :pattern ((MUL (+ x 1) y)))))",
+}
 
 func app(op string, args ...string) string {
 	return "(" + op + " " + strings.Join(args, " ") + ")"
